@@ -1,3 +1,18 @@
 CLAIMED = {
+ 'C06': dict(
+   text='Bounded symbolic execution of the real Builder/Slice/Address code: for every enumerated type sequence (single types at '
+        'every boundary width, pairs/triples of a 19-type alphabet, strings, snake chains, all address forms) the solver shows for ALL '
+        'values of the symbolic operands that the produced bits equal the TL-B encoding, loads/preloads return the stored values and '
+        'nothing is left unread; counterexamples are replayed on the untouched library before being reported.',
+   note='Trusted: z3, the SX leaf types and bitarray model (validated per path witness against the real bitarray), the primitive '
+        'encodings in specs/enc.py. Structure (widths, lengths, sequence shapes) is enumerated, not symbolic; non-ASCII text and '
+        'sequences longer than 3 are outside the claim.'),
+ 'C18': dict(
+   text='Technique B on the loop body sliced from the current source: one real iteration from an arbitrary register state and byte '
+        'equals the bitwise CRC step, plus initial value and finalisation: an inductive argument covering inputs of every length, '
+        'decided by z3; plus whole-function equivalence on up to 8 (crc16) / 2 (crc32c) fully symbolic bytes.',
+   note='Trusted: z3; the bitwise reference definitions (validated on the published check values); the fold-shape recogniser '
+        '(if the shape is not recognised only the bounded claim is made and reported in evidence).',
+   technique='inductive step lemma over the AST-sliced loop body + bounded symbolic execution, z3 QF_BV'),
 }
 NOT_APPLICABLE = {}
